@@ -48,7 +48,7 @@ class Check:
 
     def tables(self):
         ok, msg = vlib.gen_tables(self.work)
-        self.oblige("translator: Tables.v regenerated from the working tree and accepted by coqc", "translation", ok, msg)
+        self.oblige("translator: Tables.v regenerated from the working tree, accepted by coqc, and validated (in-Coq dump of the value read = dump of the runtime tables)", "translation", ok, msg)
         self.notes.append(msg)
         return ok
 
@@ -145,7 +145,7 @@ class Check:
         return {k: (v if v is not None else ["<no Print Assumptions output>"]) for k, v in thms.items()}
 
     # ------------------------------------------------------------ correspondence
-    def run_driver(self, driver, args=None, timeout=1800):
+    def run_driver(self, driver, args=None, timeout=3000, seed=None):
         """run corr/drv_<driver>.py in the implementation environment; returns its meta dict (or None)"""
         out = os.path.join(self.work, "drv_%s_%d" % (driver, len(self.corr["drivers"])))
         os.makedirs(out, exist_ok=True)
@@ -159,7 +159,7 @@ class Check:
             tier = "thorough"
             self.notes.append("source of %s differs from the fingerprint baseline: driver %s uses the thorough corpus" % (", ".join(ch[:6]), driver))
         cmd = [vlib.PY, os.path.join(vlib.VERIF, "corr", "drv_%s.py" % driver), "--prop", self.prop, "--tier", tier,
-               "--seed", str(self.seed), "--out", out] + (args or [])
+               "--seed", str(self.seed if seed is None else seed), "--out", out] + (args or [])
         t = time.time()
         try:
             p = subprocess.run(cmd, env=vlib.impl_env(), capture_output=True, text=True, timeout=timeout)
